@@ -6,6 +6,7 @@
 package main
 
 import (
+	"flag"
 	"fmt"
 	"strings"
 
@@ -139,7 +140,17 @@ func e2eCase(seed uint64, i int) {
 }
 
 func main() {
+	burstOnly := flag.Bool("burstonly", false, "run only the subscription-burst rounds (process of its own, built with -race)")
 	run = hlib.Start("C03")
+	if *burstOnly {
+		rounds := 12
+		if run.Tier == "thorough" {
+			rounds = 150
+		}
+		cons.Burst(run, rounds, 48)
+		run.Finish("subscription bursts: 48 partitions of one broker subscribed at the same moment, every one must deliver its 3 records")
+		return
+	}
 	rn = &cpgen.Runner{Run: run}
 	if lines := run.ReplayLines(); lines != nil {
 		for _, l := range lines {
